@@ -59,6 +59,11 @@ pub open spec fn parse_msg(b: Seq<u8>) -> Option<MsgSpec> {
 // anything after the 4-byte header of a 0.00 Empty message.
 // a payload marker with nothing after it (the one lenient shape the encoder never produces)
 pub open spec fn lone_marker(b: Seq<u8>) -> bool { b.len() >= 4 && tail_of(b, 4 + (b[0] as int) % 16).len() == 1 }
+// the shape of every datagram the encoder produces: no payload marker at all, or a marker followed by at least one byte
+// in a message whose code is not 0.00 (C01 needs exactly these decoded; C03 says which of the others may be refused)
+pub open spec fn enc_shape(b: Seq<u8>) -> bool {
+    b.len() >= 4 && ({ let t = tail_of(b, 4 + (b[0] as int) % 16); t.len() == 0 || (t.len() > 1 && b[1] != 0) })
+}
 pub open spec fn lenient(b: Seq<u8>) -> bool {
     b.len() >= 4 && (
         (b[0] as int) / 64 != 1
